@@ -715,7 +715,7 @@ PROPS = {
             "level_text": "As C01 for the third/fourth-order estimators; definitions are the ones quoted in the property.", "level_note": TB + "non-zero spread (property quantifier) for the normalisation."},
     "C04": {"run": c04, "level": "other", "design_ref": "DESIGN.md 5 C04",
             "technique": TECH + "concrete evaluation of the binomial iterator, per-element dimension analysis, identity testing of central/standardized moments against their definitions for every p <= N",
-            "explanation": "Decides for define_moments! at N in {4,5,6,10} (+8 thorough), both cfg arms: IterBinomial yields Pascal's triangle without overflow for every order <= N (R-BINOM); m[j] has dimension X^(j+2) in add and merge (R-DIM); R-COUNT, R-SIGN (m[0]), R-DIV, R-SHIFT; L1-L4; central_moment(p) and standardized_moment(p) equal their definitions over the reals for every p <= N on abstract streams of length 2 and N+1. Not decided: the envelope; N outside the instantiated set.",
+            "explanation": "Decides for define_moments! at N in {4,5,6,10} (+8 thorough), both cfg arms: IterBinomial yields Pascal's triangle without overflow for every order <= N (R-BINOM); m[j] has dimension X^(j+2) in add and merge (R-DIM); R-COUNT, R-SIGN (m[0]), R-DIV, R-SHIFT; L1-L4; central_moment(p) and standardized_moment(p) equal their definitions over the reals for every p <= N on abstract streams of length 2, 3 and N+1; no intermediate of any accessor or update exceeds dimension X^N (R-MAG). Not decided: the envelope; N outside the instantiated set.",
             "level_text": "Macro-generated code is analysed after expansion at the parameters the property names; real-arithmetic correctness of every order on short abstract streams plus merge laws.", "level_note": TB + "the harness crate /verif/harness instantiates the macro (no logic of its own)."},
     "C05": {"run": c05, "level": "other", "design_ref": "DESIGN.md 5 C05",
             "technique": TECH + "order-type enumeration of all abstract paths of Quantile::add compared with a transcription of the P-square step (translation validation against the algorithm quoted by the property)",
@@ -723,7 +723,7 @@ PROPS = {
             "level_text": "Every path of the implementation's step agrees with the algorithm's step for all abstract states (heights sorted, positions arbitrary) and observations; this found the new-minimum defect (fixed).", "level_note": TB + "the specification step in analysis/quantile_rules.py is transcribed from Jain & Chlamtac as quoted in C05; float_ord::sort permutes into non-decreasing order."},
     "C06": {"run": c06, "level": "other", "design_ref": "DESIGN.md 5 C06",
             "technique": TECH + "order-type enumeration under the documented contract of binary_search_by; panic census; monotonicity-by-construction of with_const_width",
-            "explanation": "Decides for define_histogram! at LEN in {1,2,3,4,10} (+100 thorough) and the const-generic sibling: find/add have no reachable panic (NaN included); the result is Ok exactly when range_min <= x < range_max and then the unique half-open bin; add changes exactly that count by one and nothing on the error path; edges are never modified; both constructors establish sorted edges (from_ranges table; with_const_width non-decreasing by construction). Not decided: which of several equal edges std's binary search returns (unspecified by its contract).",
+            "explanation": "Decides for define_histogram! at LEN in {1,2,3,4,10} (+100 thorough) and the const-generic sibling: find/add have no reachable panic (NaN included); the result is Ok exactly when range_min <= x < range_max and then the unique half-open bin; add changes exactly that count by one and nothing on the error path; edges are never modified; both constructors establish sorted edges (from_ranges table; with_const_width non-decreasing by construction); repeated edges (LEN <= 4) are decided for the binary-search algorithm shipped with the installed toolchain. Not decided: repeated edges under an arbitrary conforming binary_search_by (its contract leaves the index open).",
             "level_text": "All order types of (x, edges) including NaN, ties, infinities for strictly increasing edges; found find(NaN) panicking (fixed).", "level_note": TB + "documented contract of [T]::binary_search_by."},
     "C07": {"run": c07, "level": "other", "design_ref": "DESIGN.md 5 C07",
             "technique": TECH + "provenance (taint) of the returned height through float_ord::sort + grid evaluation of the index logic with abstract observations",
@@ -747,7 +747,7 @@ PROPS = {
             "level_text": "All obligations discharged for abstract reachable states; exactness is syntactic identity of residuals after the IEEE-exact identities of DESIGN 2.3.", "level_note": TB + "reachable states of Min/Max are not NaN; states are finite (C01 domain)."},
     "C12": {"run": c12, "level": "other", "design_ref": "DESIGN.md 5 C12",
             "technique": TECH + "enumeration of all input lists of length 0..LEN+3 as abstract items with NaN/order cases against the C12 table",
-            "explanation": "Decides for LEN in {1,2,3,4} (+10 thorough) and both siblings: for every abstract input prefix (each item NaN / out of order / fine, list shorter or longer) the outcome (Ok with exactly the first LEN+1 values and zero counts, or the error of the first offending position, NaN before NotSorted, NotEnoughRanges) is the one C12 states; extra values are ignored even if invalid. with_const_width: first edge exactly start, edges = start + i(end-start)/LEN over the reals, non-decreasing by construction. Not decided: the few-ulps claim.",
+            "explanation": "Decides for LEN in {1,2,3,4} (+10 thorough) and both siblings: for every abstract input prefix (each item NaN / out of order / fine, list shorter or longer) the outcome (Ok with exactly the first LEN+1 values and zero counts, or the error of the first offending position, NaN before NotSorted, NotEnoughRanges) is the one C12 states; extra values are ignored even if invalid. with_const_width: first edge exactly start, edges = start + i(end-start)/LEN over the reals, non-decreasing by construction, each edge computed by at most 5 rounded operations independent of the index (R-ULPS); range_min/range_max/ranges()/bins() are exact views. Not decided: the exact ulp constant.",
             "level_text": "Exhaustive over the order/NaN types of the inputs (not over values).", "level_note": TB},
     "C13": {"run": c13, "level": "proof", "design_ref": "DESIGN.md 5 C13",
             "technique": TECH + "effect summaries and write-before-panic analysis over all edge-(in)equality cases",
@@ -759,8 +759,8 @@ PROPS = {
             "level_text": "All cases of (state, value) including NaN and infinities.", "level_note": TB + "IEEE minNum/maxNum semantics of f64::min/max; total orders (FloatOrd, total_cmp) are modelled with unknown NaN/zero signs."},
     "C15": {"run": c15, "level": "other", "design_ref": "DESIGN.md 5 C15",
             "technique": TECH + "path conditions of the constructor; count discipline; the P-square step comparison of C05",
-            "explanation": "Decides: every normal return of new(p) implies 0 <= p <= 1 by a release assertion and new never panics inside the range; the count increases by exactly one on every add path (first five and later); is_empty iff len()==0; p() reads a slot that new sets to p and add never writes; extreme markers capture running min/max and interior heights are accepted only strictly between neighbours (full step comparison); NaN only for the empty estimator (sentinel). Not decided: min <= quantile <= max and height monotonicity as numeric invariants.",
-            "level_text": "Bookkeeping clauses decided for all paths; range claims rest on the decided acceptance logic but are not proved numerically.", "level_note": TB},
+            "explanation": "Decides: every normal return of new(p) implies 0 <= p <= 1 by a release assertion and new never panics inside the range; the count increases by exactly one on every add path (first five and later); is_empty iff len()==0; p() reads a slot that new sets to p and add never writes; the full P-square step comparison; on every path the marker heights stay non-decreasing with the extremes equal to the running min/max (R-SORTED: induction over the specified step plus a float-level shape condition on the linear step), so quantile() lies within [min, max]; with fewer than five observations the result is an order statistic or a midpoint of two (R-RANGE); NaN only for the empty estimator (sentinel). Not decided: nothing beyond the rounding of the parabolic formula (whose result is accepted only after comparison with its live neighbours).",
+            "level_text": "Bookkeeping, sortedness and range clauses decided for all abstract paths.", "level_note": TB},
     "C16": {"run": c16, "level": "proof", "design_ref": "DESIGN.md 5 C16, Appendix B.1",
             "technique": TECH + "evaluation of every accessor in the constructed states n=0, n=1, constant stream (induction step proved), n=2, n=3 against the sentinel table; panic census",
             "explanation": "Proves the sentinel table (about 240 cells over 14 types incl. define_moments! at several N): NaN/0/+-inf/1/x as documented for n = 0, 1, 2, 3 and for constant streams of any length (the constant-stream state is shown to be a fixed point of add(x) up to the count); no reachable release-mode panic in any cell except the documented zero-variance assertion; Default = new; states reached through merges with empty estimators are the add-only states.",
